@@ -438,7 +438,12 @@ def freshness_native(chk):
     pm = real_module('peaks.model')
     chk.function('peaks.model', 'Model.with_prefix / param_names / __add__ / CompositeModel')
     bad = []
-    for m in (pm.GaussianModel(prefix='a_'), pm.PseudoVoigtModel(), pm.PolynomialModel(degree=2, prefix='p'), pm.GaussianModel(prefix='g') + pm.PolynomialModel(degree=1, prefix='b')):
+    model_makers = (lambda: pm.GaussianModel(prefix='a_'), lambda: pm.GaussianModel(), lambda: pm.LorentzianModel(), lambda: pm.LorentzianModel(prefix='l_'), lambda: pm.PseudoVoigtModel(),
+                    lambda: pm.PseudoVoigtModel(prefix='v'), lambda: pm.PolynomialModel(degree=2, prefix='p'), lambda: pm.PolynomialModel(degree=1),
+                    lambda: pm.GaussianModel(prefix='g') + pm.PolynomialModel(degree=1, prefix='b'), lambda: pm.GaussianModel() + pm.PolynomialModel(degree=1, prefix='b'))
+    # what one model hands out must not reach another model either: bounds and names of freshly made models before and after the mutations
+    pristine = [(dict(mk().param_bounds), set(mk().param_names)) for mk in model_makers]
+    for m in [mk() for mk in model_makers]:
         names = set(m.param_names)
         pn = m.param_names
         pn.add('poison')
@@ -452,9 +457,15 @@ def freshness_native(chk):
         if m.param_names != names or m._param_names != {n[len(m.prefix):] for n in names}:
             bad.append(f'{type(m).__name__}.with_prefix shares state with the original')
         b = dict(m.param_bounds)
-        m.param_bounds['poison'] = (0, 1)
+        handed_out = m.param_bounds
+        handed_out['poison'] = (0, 1)
+        for k_ in list(b):
+            handed_out[k_] = (-1.0, -0.5)
         if dict(m.param_bounds) != b:
-            bad.append(f'{type(m).__name__}.param_bounds shared')
+            bad.append(f'{type(m).__name__}(prefix={m.prefix!r}).param_bounds shared')
+    after = [(dict(mk().param_bounds), set(mk().param_names)) for mk in model_makers]
+    if after != pristine:
+        bad.append('changing the bounds / names one model handed out changes what a newly made model hands out')
     left, right = pm.GaussianModel(prefix='l_'), pm.LorentzianModel(prefix='r_')
     ln, rn = set(left.param_names), set(right.param_names)
     c1 = left + right
